@@ -3,9 +3,15 @@
 package rapid
 
 import (
+	"go.amzn.com/lambda/appctx"
 	"go.amzn.com/lambda/interop"
 	"go.amzn.com/lambda/rapi"
 )
 
 // VerifServer returns the Runtime API server behind a RapidContext.
 func VerifServer(c interop.RapidContext) *rapi.Server { return c.(*rapidContext).server }
+
+// VerifRuntimeRelease returns the runtime identity string currently stored for the environment.
+func VerifRuntimeRelease(c interop.RapidContext) string {
+	return appctx.GetRuntimeRelease(c.(*rapidContext).appCtx)
+}
